@@ -243,6 +243,31 @@ class Run:
     def cleanup(self):
         shutil.rmtree(self.dir, ignore_errors=True)
 
+CLI_TARGET = os.path.join(WORK, "cli-target")
+
+def build_cli(release=False):
+    """the repository's own binary (debug profile: overflow checks on)"""
+    cmd = ["cargo", "build", "--offline", "-q", "--manifest-path", os.path.join(REPO, "Cargo.toml"), "--target-dir", CLI_TARGET]
+    if release:
+        cmd.append("--release")
+    rc, out = sh(cmd, timeout=1800)
+    if rc != 0:
+        print(out[-3000:]); print("ERROR: repository does not compile"); raise SystemExit(2)
+    return os.path.join(CLI_TARGET, "release" if release else "debug", "squitterator")
+
+def cli_screens(cli, args, lines, workdir, timeout=300):
+    """run the built CLI over a file of these lines with a refresh after every frame: (exit status, list of screens (each a list of
+    lines), stderr).  The options go through clap exactly as a user's do."""
+    path = os.path.join(workdir, "cli-%d.txt" % (abs(hash((tuple(args), len(lines)))) % 10 ** 9))
+    with open(path, "wb") as f:
+        for l in lines:
+            f.write((l.encode() if isinstance(l, str) else l) + b"\n")
+    p = subprocess.run([cli, "-s", path, "--update=-1"] + list(args), stdout=subprocess.PIPE, stderr=subprocess.PIPE, timeout=timeout,
+                       env=dict(ENV, TMPDIR=workdir))
+    out = p.stdout.decode("utf-8", "replace")
+    screens = [x.lstrip("\n").split("\n") for x in out.split("\x1b[2J\x1b[H\x1b[3J") if x.strip()]
+    return p.returncode, screens, p.stderr.decode("utf-8", "replace")
+
 def split_cases(lines):
     """split an output stream at `case <id>` echo lines -> {id: [lines]}"""
     cases, cur = {}, None
